@@ -5,7 +5,8 @@ subclasses which inherit the two registration methods unchanged).
 
 Events
     base NAME          lib_get_add_base(NAME)             NAME in {"a.dll", "b.dll", "A.DLL", "a", "c.dll"}
-    func L F           lib_get_add_func(base of library L, F)   F in {"f", "g", 1, 2}  (names and ordinals)
+    func L F           lib_get_add_func(base of library L, F)   F in {"f", 1, 2, "1", "2"}  (names, ordinals, and
+                       names spelled like an ordinal: ordinal 1 and the symbol "1" are different functions)
     many L K           K calls of lib_get_add_func(base of L, <fresh name>)  K in {253, 254, 255, 256, 300}
                        (one macro event, so that the end of a library's 0x1000 region is reached from
                         non-initial states within the depth bound)
@@ -13,8 +14,8 @@ Events
 Reference model: an injective map (library, function) -> address, its inverse, and name -> library.
 Oracle, at every single registration (also inside a macro event): a known (library, function) gets the address it
 got before; a new one gets an address no other (library, function) of any library owns. In every reached state, for
-every registered pair: lib_imp2ad still holds its address, fad2info[address] == (library, function) and
-cname2addr[fad2cname[address]] == address.
+every registered pair: lib_imp2ad still holds its address, fad2info[address] == (library, function),
+cname2addr[fad2cname[address]] == address, and fad2cname is injective over the stubs.
 """
 from mc import bfs
 from mc.tally import TallyCtx
@@ -38,8 +39,11 @@ ASSUMPTIONS = ["library identity is the Windows one: case-insensitive name, '.dl
                "future behaviour of the table depends on earlier registrations of a library only through their number"]
 
 NAMES = ["a.dll", "b.dll", "A.DLL", "a", "c.dll"]
-FUNCS = ["f", "g", 1, 2]
+# names, ordinals, and names that are the decimal spelling of an ordinal used in the same (and in another) library:
+# ordinal 1 and a symbol called "1" are two different functions
+FUNCS = ["f", 1, 2, "1", "2"]
 MANY = [253, 254, 255, 256, 300]
+MANY_QUICK = [254, 255, 256, 300]   # with five small keys 253 adds no new way to meet the region end
 # a seed = (class, how many of NAMES are offered): 4 names = two libraries with aliases, 5 names = three libraries
 SEEDS = [("libimp", 4), ("libimp_pe", 4), ("libimp_elf", 4), ("libimp", 5)]
 # depth bound per seed (None = not run in that tier): the subclasses only inherit the two methods (libimp_elf is an
@@ -194,6 +198,20 @@ def invariant(st):
             bad("fad2cname:missing:%s" % _ftype(f), "%s: no fad2cname entry" % where)
         elif t.cname2addr.get(cname) != a:
             bad("cname2addr:roundtrip", "%s: fad2cname = %r but cname2addr[%r] = %r" % (where, cname, cname, t.cname2addr.get(cname)))
+    # distinct stubs have distinct canonical names (handlers are dispatched by canonical name)
+    byname = {}
+    for (li, f), a in st.addr.items():
+        cname = t.fad2cname.get(a)
+        if cname is None:
+            continue
+        if cname in byname and byname[cname][2] != a:
+            oli, of, oa = byname[cname]
+            kinds = sorted([_ftype(f), _ftype(of)])
+            bad("fad2cname:not-injective:%s:%s+%s" % ("same-lib" if oli == li else "other-lib", kinds[0], kinds[1]),
+                "stubs 0x%x (library %d function %r) and 0x%x (library %d function %r) share the canonical name %r" % (
+                    oa, oli, of, a, li, f, cname))
+        else:
+            byname[cname] = (li, f, a)
     if probs:
         st.broken = True
     return probs
@@ -208,14 +226,14 @@ def events(st):
         for f in FUNCS:
             evs.append(("func", li, f))
     for li in range(len(st.bases)):
-        for k in MANY:
+        for k in (MANY_QUICK if _TIER["quick"] else MANY):
             evs.append(("many", li, k))
     return evs
 
 
 def canon(st):
     return (st.seed, tuple(sorted(st.name2lib.items())),
-            tuple((len(fs), tuple(sorted((str(f) for f in fs if f in FUNCS)))) for fs in st.funcs),
+            tuple((len(fs), tuple(sorted((repr(f) for f in fs if f in FUNCS)))) for fs in st.funcs),
             st.broken)
 
 
@@ -233,7 +251,7 @@ def run(ctx):
     cov = bfs.explore(tctx, sys.modules[__name__], max_depth=depth, seeds=seeds, chunk=4)
     cov["outcome_counts"] = tctx.table()
     cov["bounds"] = {"seeds_class_and_number_of_names": [list(x) for x in SEEDS], "depth_per_seed": depths, "names": NAMES,
-                     "funcs": FUNCS, "macro_sizes": MANY}
+                     "funcs": FUNCS, "macro_sizes": MANY_QUICK if ctx.quick else MANY}
     return cov
 
 
